@@ -313,6 +313,69 @@ def run(ctx):
     ctx.require(n_fn >= 40, f"only {n_fn} bash functions parsed in the ebd sources")
     ctx.floor("R6", 1)
 
+    # ---- R7 an unknown reply ends the session; a pooled daemon is probed before it is reused ----------------------------
+    lsrc = P.bashfile("data/lib/pkgcore/ebd/ebuild-daemon-lib.bash").src
+    lf = B.functions(lsrc)
+    ctx.require("__internal_inherit" in lf, "__internal_inherit not found in ebuild-daemon-lib.bash")
+    tree7 = B.structure(lf["__internal_inherit"].body, lf["__internal_inherit"].body_line)
+
+    def _cmd_names(node):
+        k = node[0]
+        if k == "cmd":
+            yield node[1].name.split()[0] if node[1].name else ""
+        elif k == "seq":
+            for x in node[1]:
+                yield from _cmd_names(x)
+        elif k == "if":
+            for c_, b_ in node[1]:
+                yield from _cmd_names(c_)
+                yield from _cmd_names(b_)
+            if node[2] is not None:
+                yield from _cmd_names(node[2])
+        elif k == "andor":
+            yield from _cmd_names(node[1])
+            yield from _cmd_names(node[3])
+        elif k in ("group",):
+            yield from _cmd_names(node[1])
+        elif k == "loop":
+            if node[2] is not None:
+                yield from _cmd_names(node[2])
+            yield from _cmd_names(node[3])
+        elif k == "case":
+            for pats, b_ in node[2]:
+                yield from _cmd_names(b_)
+
+    dispatch = None
+    seen_read = False
+    for node in (tree7[1] if tree7[0] == "seq" else [tree7]):
+        if node[0] == "cmd" and node[1].name.startswith("__ebd_read_line"):
+            seen_read = True
+        elif seen_read and node[0] in ("if", "case") and dispatch is None:
+            dispatch = node  # the first branching on what was just read
+    ctx.check("R7", "__internal_inherit", dispatch is not None, "inherit-dispatch-present", "__internal_inherit dispatches on the reply to request_inherit", file="data/lib/pkgcore/ebd/ebuild-daemon-lib.bash")
+    if dispatch is not None:
+        if dispatch[0] == "if":
+            ok7 = dispatch[2] is not None and "die" in set(_cmd_names(dispatch[2]))
+            how7 = "the else branch"
+        else:
+            lone = [b_ for pats, b_ in dispatch[2] if [p_.strip() for p_ in pats] == ["*"]]
+            mixed = [pats for pats, b_ in dispatch[2] if "*" in [p_.strip() for p_ in pats] and len(pats) > 1]
+            ok7 = bool(lone) and "die" in set(_cmd_names(lone[0])) and not mixed
+            how7 = f"the `*)` arm (catch-all merged into {mixed[0]})" if mixed else "the `*)` arm"
+        ctx.check("R7", "__internal_inherit", ok7, "unknown-inherit-reply-dies",
+                  "a reply to request_inherit that is neither `path` nor `transfer` ends the session with an error",
+                  f"__internal_inherit no longer dies on an unknown reply ({how7}): a reply word the protocol does not define is treated as a known one, the next line is eval'ed / sourced, "
+                  f"and both sides continue out of step", file="data/lib/pkgcore/ebd/ebuild-daemon-lib.bash")
+    rq = P.func("pkgcore.ebuild.processor", "request_ebuild_processor")
+    probes = [n for n in A.body_walk(rq.node) if isinstance(n, ast.Attribute) and n.attr == "is_responsive"]
+    pops = [c for c in A.calls(rq.node) if A.call_attr(c) in ("pop", "popleft") and "inactive" in A.unparse(c.func)]
+    loops7 = [n for n in A.body_walk(rq.node) if isinstance(n, (ast.For, ast.While)) and any("inactive" in A.unparse(x) for x in ast.walk(n))]
+    ctx.check("R7", rq, bool(probes), "pooled-daemon-probed",
+              "a daemon taken from the inactive pool answers an alive/yep! round trip before it is handed out",
+              "request_ebuild_processor hands out a pooled daemon without the `is_responsive` round trip (a liveness check of the process is not enough): output an earlier session left "
+              "unread in the pipe is taken as the reply to the next, unrelated request")
+    ctx.floor("R7", 3)
+
 
 FP = "src/pkgcore/ebuild/processor.py"
 MUTANTS = [
